@@ -4,7 +4,7 @@
    C06/ModelR.v (Gabor / gammatone / Fbank values over R). *)
 From Coq Require Import ZArith List Bool QArith Qround Reals.
 From Verif Require Import C06.Model C06.ModelR C06.CplxProofs C06.PeriodProofs C06.Proofs
-     C06.FbankRange C06.GaborBound C06.GammatoneBound C06.BoundExamples.
+     C06.FbankRange C06.GaborBound C06.GammatoneBound C06.BoundExamples C06.GenTie gen.C06Index.
 Import ListNotations.
 
 (* ---- triangular / Fbank: the recipes rebuild the responses exactly ---- *)
@@ -249,3 +249,87 @@ Theorem gammatone_rebuild_within_2eps :
           Cnorm resid <= 2 * eps.
 Proof. exact gammatone_rebuild_within_2eps_l. Qed.
 Print Assumptions gammatone_rebuild_within_2eps.
+
+(* ---- tie by translation: the index arithmetic extracted from filters.py
+   (gen/C06Index.v, module Ix) is the one the model is built from ---- *)
+Local Open Scope Z_scope.
+
+Theorem source_tri_indices_are_the_models :
+  forall (w : Z) (f rate : Q),
+    Ix.tri_full_left_idx w f rate = left_index w f rate /\
+    Ix.tri_trunc_left_idx w f rate = left_index w f rate /\
+    Ix.fbank_full_left_idx w f rate = left_index w f rate /\
+    Ix.fbank_trunc_left_idx w f rate = left_index w f rate /\
+    Ix.tri_full_right_idx w f rate = right_index w f rate /\
+    Ix.tri_trunc_right_idx w f rate = right_index w f rate /\
+    Ix.fbank_full_right_idx w f rate = right_index w f rate /\
+    Ix.fbank_trunc_right_idx w f rate = right_index w f rate.
+Proof. exact tri_index_tie. Qed.
+Print Assumptions source_tri_indices_are_the_models.
+
+Theorem source_dft_size_is_the_models :
+  forall (w : Z) (half : bool),
+    Ix.tri_full_dft_size w half = dft_size w half /\
+    Ix.fbank_full_dft_size w half = dft_size w half /\
+    Ix.gabor_full_dft_size w half = dft_size w half /\
+    Ix.gt_full_dft_size w half = dft_size w half.
+Proof. exact dft_size_tie. Qed.
+Print Assumptions source_dft_size_is_the_models.
+
+Theorem source_tri_loops_are_the_models :
+  forall (V : Type) (zero : V) (w li ri : Z) (analytic half : bool) (val : Z -> V),
+    (tri_full zero w li ri analytic half val =
+     full_from zero (Ix.tri_full_zeros (Ix.tri_full_dft_size w half))
+               (Ix.tri_full_range li ri (Ix.tri_full_dft_size w half))
+               (Ix.tri_full_mirror half analytic) val /\
+     tri_full zero w li ri analytic half val =
+     full_from zero (Ix.fbank_full_zeros (Ix.fbank_full_dft_size w half))
+               (Ix.fbank_full_range li ri (Ix.fbank_full_dft_size w half))
+               (Ix.fbank_full_mirror half analytic) val) /\
+    (tri_trunc zero false w li ri val =
+     trunc_from zero (Ix.tri_trunc_zeros w li ri) (Ix.tri_trunc_range w li ri)
+                (fun idx => Ix.tri_trunc_offset idx li) (Ix.tri_trunc_start w li) val /\
+     tri_trunc zero true w li ri val =
+     trunc_from zero (Ix.fbank_trunc_zeros w li ri) (Ix.fbank_trunc_range w li ri)
+                (fun idx => Ix.fbank_trunc_offset idx li) (Ix.fbank_trunc_start w li) val).
+Proof. intros; split; [apply tri_full_tie | apply tri_trunc_tie]. Qed.
+Print Assumptions source_tri_loops_are_the_models.
+
+Theorem source_cplx_loops_are_the_models :
+  forall (V : Type) (zero : V) (add : V -> V -> V) (fallback : bool) (w li ri : Z) (F : Z -> V)
+         (tlo thi flo fhi : Z),
+    cplx_trunc zero add false fallback w li ri F tlo thi flo fhi =
+      (if fallback then Some (Ix.gabor_trunc_whole_start, cplx_full zero add w false F flo fhi)
+       else if Ix.gabor_trunc_zeros li ri <? 0 then None
+       else Some (Ix.gabor_trunc_start w li,
+                  map (img_sum zero add w F tlo thi)
+                      (zrange (fst (Ix.gabor_trunc_bins li ri)) (snd (Ix.gabor_trunc_bins li ri))))) /\
+    cplx_trunc zero add true fallback w li ri F tlo thi flo fhi =
+      (if fallback then Some (Ix.gt_trunc_whole_start, cplx_full zero add w false F flo fhi)
+       else Some (Ix.gt_trunc_start w li,
+                  map (img_sum zero add w F tlo thi)
+                      (zrange (fst (Ix.gt_trunc_bins li ri)) (snd (Ix.gt_trunc_bins li ri))))).
+Proof. exact @cplx_trunc_tie. Qed.
+Print Assumptions source_cplx_loops_are_the_models.
+
+Theorem source_cplx_indices_are_the_models :
+  forall (w : Z) (lo_t hi_t pi_ : Q),
+    (0 < pi_)%Q ->
+    Ix.gabor_trunc_left_idx w lo_t pi_ = left_index w lo_t 1 /\
+    Ix.gabor_trunc_right_idx w hi_t pi_ = right_index w hi_t 1 /\
+    Ix.gt_trunc_left_idx w lo_t pi_ = left_index w lo_t 1 /\
+    Ix.gt_trunc_right_idx w hi_t pi_ = right_index w hi_t 1 /\
+    Ix.gabor_full_periods lo_t hi_t pi_ = (gabor_flo lo_t, gabor_fhi hi_t) /\
+    Ix.gabor_trunc_periods lo_t hi_t pi_ = (gabor_tlo lo_t, gabor_thi hi_t) /\
+    Ix.gt_full_periods (Ix.gt_full_left_period lo_t pi_) (Ix.gt_full_right_period hi_t pi_)
+      = (gt_flo lo_t, gt_fhi hi_t).
+Proof. exact cplx_index_tie. Qed.
+Print Assumptions source_cplx_indices_are_the_models.
+
+Theorem source_whole_period_tests :
+  forall (lo_t hi_t wrap pi_ : Q),
+    (Ix.gabor_whole_period lo_t hi_t wrap pi_ = true <-> (2 * pi_ <= wrap)%Q) /\
+    (Ix.gt_whole_period lo_t hi_t wrap pi_ = true <->
+     (2 * pi_ <= hi_t * (2 * pi_) - lo_t * (2 * pi_) + wrap)%Q).
+Proof. exact whole_period_tie. Qed.
+Print Assumptions source_whole_period_tests.
